@@ -67,6 +67,7 @@ pub fn write(
             "real_rayon_pool_entries": agg.real_pool_entries,
             "worker_processes": workers,
             "worker_restarts_after_hang_or_crash": agg.worker_restarts,
+            "runs_skipped_after_confirmed_hangs": agg.runs_skipped_after_hangs,
             "known_findings_matched": known,
             "components": props::components(prop),
             "miri_layer": miri,
